@@ -51,18 +51,26 @@ func segRun(bufBlocks uint16, plain []byte, cuts []int) string {
 		return nil
 	}
 	cl.VerifAttachConn(sc)
-	res := func() (s string) {
+	done := make(chan string, 1)
+	go func() {
 		defer func() {
 			if r := recover(); r != nil {
-				s = "panic"
+				done <- "panic"
 			}
 		}()
 		ms, err := cl.SendMultiple([]rscp.Message{{Tag: rscp.INFO_REQ_UTC_TIME, DataType: rscp.None}})
 		if err != nil {
-			return "err " + clientErrClass(err)
+			done <- "err " + clientErrClass(err)
+			return
 		}
-		return "ok " + msgsString(ms)
+		done <- "ok " + msgsString(ms)
 	}()
+	var res string
+	select {
+	case res = <-done:
+	case <-time.After(10 * time.Second):
+		return "hang ; disc=?"
+	}
 	conn, _ := cl.VerifState()
 	d := "1"
 	if conn {
@@ -85,8 +93,8 @@ func segCase(cw *caseWriter, bufBlocks uint16, plain []byte, cuts []int, label s
 			prop = "FAIL C07 delivery changes the result: one piece gives " + trunc(*base, 80) + ", this delivery " + trunc(got, 80)
 		}
 	}
-	if strings.HasPrefix(got, "panic") {
-		prop = "FAIL C07 client panics"
+	if strings.HasPrefix(got, "panic") || strings.HasPrefix(got, "hang") {
+		prop = "FAIL * client " + strings.SplitN(got, " ", 2)[0] + " in receive"
 	}
 	cw.add(fmt.Sprintf("recv %d %s", bufBlocks, strings.Join(hs, " ")), got, "N seg "+label, prop)
 }
